@@ -223,6 +223,38 @@ func TestVerifC14(t *testing.T) {
 			}
 		}
 	}
+	// ---- how scopes are spelled: names that are prefixes, suffixes or substrings of one another, that
+	// differ in case only, granted entries that hold several names in one string.  Holding a scope is
+	// holding exactly that string.
+	spell := env.NewCases(res, "scope-name-spellings")
+	names := []string{"a", "ab", "a:b", "A", "b", "mcp:tools", "mcp:tools:read", "mcp:tool", "read", "readonly", "thread", "s1", "s10", "s"}
+	grantOnly := []string{"", "a b", "mcp:tools mcp:tools:read", " a", "a ", "a,b"}
+	var grantSets [][]string
+	for _, n := range append(slices.Clone(names), grantOnly...) {
+		grantSets = append(grantSets, []string{n})
+	}
+	for i := range names {
+		for j := i + 1; j < len(names); j++ {
+			grantSets = append(grantSets, []string{names[i], names[j]})
+		}
+	}
+	var reqSets [][]string
+	for _, n := range names {
+		reqSets = append(reqSets, []string{n})
+	}
+	reqSets = append(reqSets, []string{"a", "ab"}, []string{"mcp:tools", "mcp:tools:read"}, []string{"read", "readonly"}, []string{"s1", "s10"}, []string{"a", "b"})
+	synctest.Test(t, func(t *testing.T) {
+		now := time.Now()
+		for _, req := range reqSets {
+			for g := range grantSets {
+				idx, mine := spell.Next()
+				if !mine {
+					continue
+				}
+				c14Sequence(spell, idx, now, req, grantSets, []int{g})
+			}
+		}
+	})
 	env.Finish(res)
 }
 
@@ -242,6 +274,7 @@ func c14Sequence(cases *verifx.Cases, idx int, now time.Time, req []string, gran
 		}
 		return fmt.Sprintf("required=%v granted per request=%s", configured, strings.Join(gs, " then "))
 	}
+	admitted := 0
 	for step, g := range order {
 		current = g
 		r := httptest.NewRequest("GET", "http://rs.example/mcp", nil)
@@ -269,12 +302,15 @@ func c14Sequence(cases *verifx.Cases, idx int, now time.Time, req []string, gran
 			cases.Violate(idx, "c14 sequence challenge-missing-scopes", fmt.Sprintf("request #%d: WWW-Authenticate %q does not list the configured scopes %v [%s]", step+1, w.Header().Get("WWW-Authenticate"), configured, desc()), len(order))
 			return
 		}
+		if admit {
+			admitted++
+		}
 		if !slices.Equal(opts.Scopes, configured) {
 			cases.Violate(idx, "c14 sequence configuration-altered", fmt.Sprintf("after request #%d the Scopes slice given to RequireBearerToken reads %v, it was configured as %v [%s]", step+1, opts.Scopes, configured, desc()), len(order))
 			return
 		}
 	}
-	cases.Record(idx, fmt.Sprintf("sequence of %d decided independently", len(order)), len(order), desc)
+	cases.Record(idx, fmt.Sprintf("sequence of %d decided independently, %d admitted", len(order), admitted), len(order), desc)
 }
 
 // c14Stacked: the middleware under test runs behind another RequireBearerToken with a verifier of
